@@ -13,7 +13,7 @@ PROP = "C06"
 RULE = (
     "Hypothesis-generated operation sequences (<= 60 ops) on a gateway with persistence ({json, pickle} x 5 "
     "versions): id requests from different requesters, presentations of arbitrary node ids 0..255 (biased to "
-    "0, 1, 253, 254, 255 and to max+1), other traffic, periodic-save ticks (fake timer fired by the harness) and "
+    "0, 1, 253, 254, 255 and to max+1), other traffic, periodic-save ticks (fake timer fired by the harness; some of them refused because the storage is not writable at that moment, or failing with an I/O error at a drawn file operation) and "
     "stop()/restart cycles (new gateway object on the same file, start_persistence()). History invariant over "
     "the emitted lines: every id response carries 1 <= id <= 254, id not among the nodes known at that moment, "
     "id not handed out earlier in the whole history including previous lifetimes; a request may stay unanswered "
@@ -43,8 +43,11 @@ def cases(draw):
             nid = draw(st.integers(0, 6))
             text = draw(st.sampled_from([f"{nid};1;0;0;6;t", f"{nid};1;1;0;0;21", f"{nid};255;3;0;0;55", f"{nid};255;3;0;11;sk", "0;255;3;0;14;ready", "x;y"]))
             ops.append({"op": "line", "text": text})
-        elif roll < 82:
+        elif roll < 79:
             ops.append({"op": "tick"})
+        elif roll < 83:
+            # a periodic save that is refused / fails: storage not writable at that moment, or an I/O error
+            ops.append({"op": "tick_fault", "how": draw(st.sampled_from(["denied", "denied", "oserror"])), "k": draw(st.integers(0, 6))})
         else:
             ops.append({"op": "restart"})
     if draw(st.booleans()):
@@ -71,6 +74,12 @@ def check_case(case, stats=None):
                     if stats is not None:
                         stats.label("foreign:tick-raises")
                     return
+            elif kind == "tick_fault":
+                from vf import faultfs
+
+                layer = faultfs.Layer(deny_access=range(64)) if op["how"] == "denied" else faultfs.Layer(faultfs.FaultPlan(op["k"], "fail"))
+                with layer:
+                    life.tick()  # whatever the schedule does with the failure: ids must stay unique afterwards
             elif kind == "restart":
                 life.stop()
                 lifetime += 1
